@@ -202,6 +202,15 @@ def arg_derivations(kind, form):
         add(f"x[{key_label}]", lambda sc, key=key: sc.x[key])
     add("x[mask-vector]", lambda sc: sc.x[Vector([False, True, True])])
     add("x[index-vector]", lambda sc: sc.x[Vector([2, 0, 0])])
+    import copy as _copy, pickle as _pickle
+    add("copy.copy(x)", lambda sc: _copy.copy(sc.x))
+    add("copy.deepcopy(x)", lambda sc: _copy.deepcopy(sc.x))
+    add("pickle round trip", lambda sc: _pickle.loads(_pickle.dumps(sc.x)))
+    add("list(reversed(x))", lambda sc: list(reversed(sc.x)))
+    add("hash(x)", lambda sc: hash(sc.x))
+    add("x == x (as a whole)", lambda sc: (sc.x == sc.x))
+    add("sorted(x)", lambda sc: sorted(e for e in sc.x if e is not None))
+    add("sum(x)", lambda sc: sum(e for e in sc.x if e is not None))
     add("x << x", lambda sc: sc.x << sc.x)
     add("x >> x", lambda sc: sc.x >> sc.x)
     add("copy(name)", lambda sc: sc.x.copy(name="k"))
